@@ -159,48 +159,67 @@ Print Assumptions tie_ns_extend.
 
 (* ------------------------------------------------------------------ MemoryMap.add_resource *)
 
-(* the statements of the model that stand for the three opaque blocks *)
+(* what a call leaves in the namespace and how it ends: on success the names of the new map; a refused call leaves
+   the names it found (the model keeps the old map) *)
+Definition ns_outcome {A} (before : list name) (r : res (mmap * A)) : list name * res unit :=
+  match r with Ok (m', _) => (m_names m', Ok tt) | Err e => (before, Err e) end.
+
+(* the statements of the model that stand for the opaque blocks of add_resource, in the order of the code:
+   the three entry checks; the alignment rule; _compute_addr_range; _RangeMap.insert.  (The two blocks that follow,
+   recording the resource and moving the cursor, cannot fail in the model: Ok tt.)  A block is only run when the
+   ones before it succeeded, so the later ones may assume that. *)
 Definition res_pre (m : mmap) (id : Z) (is_comp : bool) : res unit :=
   let! _ := check (negb (m_frozen m)) ValueError in
   let! _ := check is_comp TypeError in
   check (negb (has_res m id)) ValueError.
 
-Definition res_mid (m : mmap) (id : Z) (size addr alignment : pyint) : res unit :=
-  let! al :=
-    match alignment with
-    | VNone => Ok (m_al m)
-    | _ => let! _ := check (nonneg alignment) ValueError in Ok (Z.max (zof alignment) (m_al m))
-    end in
-  let! '(s, e) := compute_addr_range m addr size al in
-  let! rs := rm_insert (m_ranges m) {| e_start := s; e_stop := e; e_step := 1; e_asg := AR id |} in
-  Ok tt.
+Definition res_al (m : mmap) (alignment : pyint) : res Z :=
+  match alignment with
+  | VNone => Ok (m_al m)
+  | _ => let! _ := check (nonneg alignment) ValueError in Ok (Z.max (zof alignment) (m_al m))
+  end.
+
+Definition res_align (m : mmap) (alignment : pyint) : res unit := let! _ := res_al m alignment in Ok tt.
+
+Definition res_car (m : mmap) (size addr alignment : pyint) : res unit :=
+  match res_al m alignment with
+  | Ok al => let! _ := compute_addr_range m addr size al in Ok tt
+  | Err _ => Ok tt
+  end.
+
+Definition res_ins (m : mmap) (id : Z) (size addr alignment : pyint) : res unit :=
+  match res_al m alignment with
+  | Ok al => match compute_addr_range m addr size al with
+             | Ok (s, e) => let! _ := rm_insert (m_ranges m) {| e_start := s; e_stop := e; e_step := 1; e_asg := AR id |} in Ok tt
+             | Err _ => Ok tt
+             end
+  | Err _ => Ok tt
+  end.
 
 (* which name is queried (the validated one, alone, with a reasons list), which exception a refusal raises, and
-   that the namespace is updated only after every statement that can still raise: the names of the resulting map
-   (or the exception) are what the regenerated statements compute *)
+   that the namespace is updated only after every statement that can still raise: the regenerated statements end
+   with the names of the model's resulting map, or with the model's exception and the namespace untouched *)
 Theorem tie_add_resource_names : forall order, order_ok order ->
   forall m id is_comp nm size addr alignment,
   (forall a, In a (m_names m) -> a <> []) ->
-  res_map (fun r => m_names (fst r)) (add_resource m id is_comp nm size addr alignment) =
-  gen_add_resource_ns order (m_names m) nm (res_pre m id is_comp) (res_mid m id size addr alignment) (Ok tt).
+  ns_outcome (m_names m) (add_resource m id is_comp nm size addr alignment) =
+  gen_add_resource_ns order (m_names m) nm (res_pre m id is_comp) (res_align m alignment)
+    (res_car m size addr alignment) (res_ins m id size addr alignment) (Ok tt) (Ok tt).
 Proof.
   intros order Hord m id is_comp nm size addr alignment Hne.
-  unfold gen_add_resource_ns, add_resource, res_pre, res_mid.
-  destruct (negb (m_frozen m)); cbn [check bind res_map]; [|reflexivity].
-  destruct is_comp; cbn [check bind res_map]; [|reflexivity].
-  destruct (negb (has_res m id)); cbn [check bind res_map]; [|reflexivity].
+  unfold gen_add_resource_ns, add_resource, res_pre, res_align, res_car, res_ins.
+  fold (res_al m alignment).
+  destruct (negb (m_frozen m)); cbn [check bind ns_outcome bind_st]; [|reflexivity].
+  destruct is_comp; cbn [check bind ns_outcome bind_st]; [|reflexivity].
+  destruct (negb (has_res m id)); cbn [check bind ns_outcome bind_st]; [|reflexivity].
   rewrite tie_name_new.
-  destruct (mk_name nm) as [n|e] eqn:Hn; cbn [bind res_map]; [|reflexivity]. cbv zeta.
+  destruct (mk_name nm) as [n|e] eqn:Hn; cbn [bind ns_outcome bind_st]; [|reflexivity]. cbv zeta.
   pose proof (mk_name_wf _ _ Hn) as Hwf.
   rewrite tie_ns_is_available, tie_ns_assign by assumption. cbn [mapR app]. rewrite !(mk_name_raw_of _ Hwf). cbn [bind].
-  destruct (is_available (m_names m) [n]) as [[|]|e] eqn:Ha; cbn [check bind negb res_map]; try reflexivity.
-  match goal with |- context [bind ?x _] =>
-    match x with
-    | match alignment with _ => _ end => destruct x as [al|e]; cbn [bind res_map]; [|reflexivity]
-    end
-  end.
-  destruct (compute_addr_range m addr size al) as [[s e]|e]; cbn [bind res_map]; [|reflexivity].
-  destruct (rm_insert _ _) as [rs|e']; cbn [bind res_map]; [|reflexivity].
+  destruct (is_available (m_names m) [n]) as [[|]|e] eqn:Ha; cbn [check bind negb ns_outcome bind_st]; try reflexivity.
+  destruct (res_al m alignment) as [al|e]; cbn [bind ns_outcome bind_st]; [|reflexivity].
+  destruct (compute_addr_range m addr size al) as [[s e]|e]; cbn [bind ns_outcome bind_st]; [|reflexivity].
+  destruct (rm_insert _ _) as [rs|e']; cbn [bind ns_outcome bind_st]; [|reflexivity].
   destruct m; reflexivity.
 Qed.
 Print Assumptions tie_add_resource_names.
@@ -209,6 +228,8 @@ Print Assumptions tie_add_resource_names.
 
 Definition truthy (sparse : option bool) : bool := match sparse with Some true => true | _ => false end.
 
+(* the opaque blocks of add_window: entry checks; ratio / size / alignment; _compute_addr_range; window.freeze()
+   (cannot fail); _RangeMap.insert; the two final blocks (cannot fail) *)
 Definition win_pre (m : mmap) (wid : Z) (w : mmap) (sparse : option bool) : res unit :=
   let! _ := check (negb (m_frozen m)) ValueError in
   let! _ := check (negb (has_win m wid)) ValueError in
@@ -218,55 +239,69 @@ Definition win_pre (m : mmap) (wid : Z) (w : mmap) (sparse : option bool) : res 
     check (negb (negb (truthy sparse) && negb (m_dw m mod m_dw w =? 0))) ValueError
   else Ok tt.
 
-Definition win_mid (m : mmap) (wid : Z) (w : mmap) (addr : pyint) (sparse : option bool) : res unit :=
-  let ratio := if negb (truthy sparse) then m_dw m / m_dw w else 1 in
+Definition win_ratio (m w : mmap) (sparse : option bool) : Z := if negb (truthy sparse) then m_dw m / m_dw w else 1.
+
+Definition win_arith (m w : mmap) (sparse : option bool) : res unit :=
+  let ratio := win_ratio m w sparse in
   let! _ := check (Z.land ratio (ratio - 1) =? 0) ValueError in
-  let! _ := check (negb (ratio >? Z.shiftl 1 (m_al w))) ValueError in
-  let size := Z.shiftl 1 (m_aw w) / ratio in
-  let al := Z.max (m_al m) (m_aw w / ratio) in
-  let! '(s, e) := compute_addr_range m addr (VInt size) al in
-  let! rs := rm_insert (m_ranges m) {| e_start := s; e_stop := e; e_step := ratio; e_asg := AW wid |} in
-  Ok tt.
+  check (negb (ratio >? Z.shiftl 1 (m_al w))) ValueError.
+
+Definition win_range (m w : mmap) (addr : pyint) (sparse : option bool) : res (Z * Z) :=
+  let ratio := win_ratio m w sparse in
+  compute_addr_range m addr (VInt (Z.shiftl 1 (m_aw w) / ratio)) (Z.max (m_al m) (m_aw w / ratio)).
+
+Definition win_car (m w : mmap) (addr : pyint) (sparse : option bool) : res unit :=
+  let! _ := win_range m w addr sparse in Ok tt.
+
+Definition win_ins (m : mmap) (wid : Z) (w : mmap) (addr : pyint) (sparse : option bool) : res unit :=
+  match win_range m w addr sparse with
+  | Ok (s, e) =>
+      let! _ := rm_insert (m_ranges m) {| e_start := s; e_stop := e; e_step := win_ratio m w sparse; e_asg := AW wid |} in
+      Ok tt
+  | Err _ => Ok tt
+  end.
 
 (* which names are queried: the validated name alone for a named window, every name of the window's namespace
    for an anonymous one; ValueError on refusal; update (assign / extend = append the queried names) after the
-   statements that can still raise *)
+   statements that can still raise, and nothing changed when the call is refused *)
 Theorem tie_add_window_names : forall order, order_ok order ->
   forall m wid w nm addr sparse,
   (forall a, In a (m_names m) -> a <> []) -> Forall wf_name (m_names w) ->
-  res_map (fun r => m_names (fst r)) (add_window m wid w nm addr sparse) =
-  gen_add_window_ns order (m_names m) (m_names w) nm (win_pre m wid w sparse) (win_mid m wid w addr sparse) (Ok tt).
+  ns_outcome (m_names m) (add_window m wid w nm addr sparse) =
+  gen_add_window_ns order (m_names m) (m_names w) nm (win_pre m wid w sparse) (win_arith m w sparse)
+    (win_car m w addr sparse) (Ok tt) (win_ins m wid w addr sparse) (Ok tt) (Ok tt).
 Proof.
   intros order Hord m wid w nm addr sparse Hne Hwfw.
-  unfold gen_add_window_ns, add_window, win_pre, win_mid. fold (truthy sparse).
-  destruct (negb (m_frozen m)); cbn [check bind res_map]; [|reflexivity].
-  destruct (negb (has_win m wid)); cbn [check bind res_map]; [|reflexivity].
-  destruct (negb (m_dw w >? m_dw m)); cbn [check bind res_map]; [|reflexivity].
+  unfold gen_add_window_ns, add_window, win_pre, win_arith, win_car, win_ins, win_range. fold (truthy sparse).
+  fold (win_ratio m w sparse).
+  destruct (negb (m_frozen m)); cbn [check bind ns_outcome bind_st]; [|reflexivity].
+  destruct (negb (has_win m wid)); cbn [check bind ns_outcome bind_st]; [|reflexivity].
+  destruct (negb (m_dw w >? m_dw m)); cbn [check bind ns_outcome bind_st]; [|reflexivity].
   match goal with |- context [bind (if negb (m_dw w =? m_dw m) then ?a else ?b) _] =>
-    destruct (if negb (m_dw w =? m_dw m) then a else b) as [u|e]; cbn [bind res_map]; [|reflexivity] end.
-  destruct nm as [raw|]; cbn [bind].
+    destruct (if negb (m_dw w =? m_dw m) then a else b) as [u|e]; cbn [bind ns_outcome bind_st]; [|reflexivity] end.
+  destruct nm as [raw|]; cbn [bind bind_st].
   - (* named window *)
     rewrite tie_name_new.
-    destruct (mk_name raw) as [n|e] eqn:Hn; cbn [bind res_map]; [|reflexivity]. cbv zeta. cbn [bind].
+    destruct (mk_name raw) as [n|e] eqn:Hn; cbn [bind ns_outcome bind_st]; [|reflexivity]. cbv zeta. cbn [bind bind_st].
     pose proof (mk_name_wf _ _ Hn) as Hwf.
     rewrite tie_ns_is_available, tie_ns_assign by assumption. cbn [map mapR app]. rewrite !(mk_name_raw_of _ Hwf). cbn [bind].
-    destruct (is_available (m_names m) [n]) as [[|]|e] eqn:Ha; cbn [check bind negb res_map]; try reflexivity.
-    set (ratio := if negb (truthy sparse) then m_dw m / m_dw w else 1).
-    destruct (check (Z.land ratio (ratio - 1) =? 0) ValueError); cbn [bind res_map]; [|reflexivity].
-    destruct (check (negb (ratio >? Z.shiftl 1 (m_al w))) ValueError); cbn [bind res_map]; [|reflexivity].
-    destruct (compute_addr_range m addr _ _) as [[s e]|e]; cbn [bind res_map]; [|reflexivity].
-    destruct (rm_insert _ _) as [rs|e']; cbn [bind res_map]; [|reflexivity].
+    destruct (is_available (m_names m) [n]) as [[|]|e] eqn:Ha; cbn [check bind negb ns_outcome bind_st]; try reflexivity.
+    cbv zeta.
+    destruct (check (Z.land _ _ =? 0) ValueError); cbn [bind ns_outcome bind_st]; [|reflexivity].
+    destruct (check (negb (_ >? Z.shiftl 1 (m_al w))) ValueError); cbn [bind ns_outcome bind_st]; [|reflexivity].
+    destruct (compute_addr_range m addr _ _) as [[s e]|e]; cbn [bind ns_outcome bind_st]; [|reflexivity].
+    destruct (rm_insert _ _) as [rs|e']; cbn [bind ns_outcome bind_st]; [|reflexivity].
     destruct m; reflexivity.
   - (* anonymous window *)
-    cbv zeta. cbn [bind]. rewrite tie_ns_names.
+    cbv zeta. cbn [bind bind_st]. rewrite tie_ns_names.
     rewrite (tie_ns_is_available_names order Hord (m_names m) (m_names w) true Hne Hwfw).
     rewrite tie_ns_extend by assumption.
-    destruct (is_available (m_names m) (m_names w)) as [[|]|e] eqn:Ha; cbn [check bind negb res_map]; try reflexivity.
-    set (ratio := if negb (truthy sparse) then m_dw m / m_dw w else 1).
-    destruct (check (Z.land ratio (ratio - 1) =? 0) ValueError); cbn [bind res_map]; [|reflexivity].
-    destruct (check (negb (ratio >? Z.shiftl 1 (m_al w))) ValueError); cbn [bind res_map]; [|reflexivity].
-    destruct (compute_addr_range m addr _ _) as [[s e]|e]; cbn [bind res_map]; [|reflexivity].
-    destruct (rm_insert _ _) as [rs|e']; cbn [bind res_map]; [|reflexivity].
+    destruct (is_available (m_names m) (m_names w)) as [[|]|e] eqn:Ha; cbn [check bind negb ns_outcome bind_st]; try reflexivity.
+    cbv zeta.
+    destruct (check (Z.land _ _ =? 0) ValueError); cbn [bind ns_outcome bind_st]; [|reflexivity].
+    destruct (check (negb (_ >? Z.shiftl 1 (m_al w))) ValueError); cbn [bind ns_outcome bind_st]; [|reflexivity].
+    destruct (compute_addr_range m addr _ _) as [[s e]|e]; cbn [bind ns_outcome bind_st]; [|reflexivity].
+    destruct (rm_insert _ _) as [rs|e']; cbn [bind ns_outcome bind_st]; [|reflexivity].
     destruct m; reflexivity.
 Qed.
 Print Assumptions tie_add_window_names.
@@ -275,8 +310,9 @@ Print Assumptions tie_add_window_names.
 
 Theorem tie_world_add_resource : forall order, order_ok order -> forall w m, reachable w -> In m w ->
   forall id is_comp nm size addr alignment,
-  res_map (fun r => m_names (fst r)) (add_resource m id is_comp nm size addr alignment) =
-  gen_add_resource_ns order (m_names m) nm (res_pre m id is_comp) (res_mid m id size addr alignment) (Ok tt).
+  ns_outcome (m_names m) (add_resource m id is_comp nm size addr alignment) =
+  gen_add_resource_ns order (m_names m) nm (res_pre m id is_comp) (res_align m alignment)
+    (res_car m size addr alignment) (res_ins m id size addr alignment) (Ok tt) (Ok tt).
 Proof.
   intros order Hord w m Hr Hm id is_comp nm size addr alignment.
   apply tie_add_resource_names; [exact Hord|]. apply (reachable_names_ok w m Hr Hm).
@@ -285,8 +321,9 @@ Print Assumptions tie_world_add_resource.
 
 Theorem tie_world_add_window : forall order, order_ok order -> forall wd m wm, reachable wd -> In m wd -> In wm wd ->
   forall wid nm addr sparse,
-  res_map (fun r => m_names (fst r)) (add_window m wid wm nm addr sparse) =
-  gen_add_window_ns order (m_names m) (m_names wm) nm (win_pre m wid wm sparse) (win_mid m wid wm addr sparse) (Ok tt).
+  ns_outcome (m_names m) (add_window m wid wm nm addr sparse) =
+  gen_add_window_ns order (m_names m) (m_names wm) nm (win_pre m wid wm sparse) (win_arith m wm sparse)
+    (win_car m wm addr sparse) (Ok tt) (win_ins m wid wm addr sparse) (Ok tt) (Ok tt).
 Proof.
   intros order Hord wd m wm Hr Hm Hwm wid nm addr sparse.
   apply tie_add_window_names; [exact Hord| |].
